@@ -158,15 +158,25 @@ func H_C13_snapshots_and_aliasing() {
 		verifAssert(hSameSlots(before, hSnapList(l, false)), "modifying the slice returned by Slice() does not change the list")
 		// modifying the list never changes an earlier snapshot
 		s2 := l.Slice()
-		switch nondetIntRange(0, 2) {
+		switch nondetIntRange(0, 4) {
 		case 0:
 			l.Replace(0, y)
 		case 1:
 			l.Add(7)
+		case 2:
+			l.Insert(1, y)
+		case 3:
+			l.Reverse()
 		default:
 			l.Delete(0)
 		}
 		s3 := l.Slice() // a later export must not disturb an earlier one
+		now := hSnapList(l, false)
+		cur := len(s3) == len(now.elem)
+		for i := 0; cur && i < len(s3); i++ {
+			cur = verifAnd(cur, hSameShallow(hSnapValue(now.elem[i].kind, s3[i], false), now.elem[i]))
+		}
+		verifAssert(cur, "a Slice() taken after a mutation holds exactly what Get returns per index now")
 		if len(s3) > 0 {
 			s3[0] = 77
 		}
